@@ -36,9 +36,11 @@ Proof.
   destruct (run_t vt (w_scn c)) as [o1 r]. cbn [snd fst] in *. subst r.
   destruct (run vt (w_scn c)) as [st|[e| |] st]; cbn [outcome_of state_of].
   - destruct (lookups_core_xt vt (normalise vt (w_scn c)) no_extras (w_lookups c) st) as [o2 [st2 outs]].
-    cbn [ob_outcome ob_log ob_fields ob_ops]. repeat split. eexists; reflexivity.
+    destruct (ob_bulk (w_obs c)); [destruct (bulk_core_xt _ _ _ _ st2) as [o3 [st3 b]]|];
+      cbn [ob_outcome ob_log ob_fields ob_ops]; repeat split; eexists; reflexivity.
   - destruct (lookups_core_xt vt (normalise vt (w_scn c)) no_extras (w_lookups c) st) as [o2 [st2 outs]].
-    cbn [ob_outcome ob_log ob_fields ob_ops]. repeat split. eexists; reflexivity.
+    destruct (ob_bulk (w_obs c)); [destruct (bulk_core_xt _ _ _ _ st2) as [o3 [st3 b]]|];
+      cbn [ob_outcome ob_log ob_fields ob_ops]; repeat split; eexists; reflexivity.
   - cbn [ob_outcome ob_log ob_fields ob_ops]. repeat split. eexists; reflexivity.
   - cbn [ob_outcome ob_log ob_fields ob_ops]. repeat split. eexists; reflexivity.
 Qed.
